@@ -72,6 +72,13 @@ def _scalar_values(rng, n, kind):
         return [x if i % 2 == 0 else x + 0.5 for i, x in enumerate(xs)]
     if kind == "str":
         return rng.sample(["alpha", "beta", "gamma", "delta", "eps", "zeta"], n)
+    if kind == "text+number":  # value lists of mixed kinds (a file name and a level, …), at least one of each
+        n = max(2, n)
+        pool = rng.sample(["alpha", "data/img_01.npy", "gamma", "delta"], n) + rng.sample([7, 2.5, 12, 0.125, 40], n)
+        return [pool[0], pool[n]] + rng.sample(pool[1:n] + pool[n + 1:], n - 2)
+    if kind == "bool+number":
+        n = max(2, n)
+        return ([True, rng.choice([7, 2.5, 12])] + rng.sample([False, 40, 0.125, 3], n - 2))[:n] if n <= 4 else None
     raise ValueError(kind)
 
 
@@ -170,7 +177,7 @@ def gen_models(rng, flavour):
         used.add((g, n))
         args = {}
         for a in rng.sample(ARG_NAMES, rng.choice([1, 2, 3])):
-            r = rng.random() if flavour not in ("vectors", "fine", "long_expr") else rng.choice([0.1, 0.8, 0.8]) if flavour == "vectors" else rng.choice([0.1, 0.1, 0.8]) if flavour == "long_expr" else 0.1
+            r = rng.random() if flavour not in ("vectors", "fine", "long_expr", "mixed_kinds") else rng.choice([0.1, 0.8, 0.8]) if flavour == "vectors" else rng.choice([0.1, 0.1, 0.8]) if flavour == "long_expr" else 0.1
             args[a] = (rng.randrange(100) if r < 0.5 else rng.randrange(100) / 4 if r < 0.7
                        else [rng.randrange(9), rng.randrange(9)] if r < 0.9 else "word")
         models.append({"group": g, "name": n, "args": args})
@@ -241,6 +248,10 @@ def gen_params(rng, models, mode, flavour, max_runs):
         elif rng.random() < (0.3 if flavour != "fine" else 1.0):
             expr, vals = _numpy_decl(rng, n, fine=True if flavour == "fine" else None)
             params.append({"key": key, "decl": expr, "expect": vals, "enabled": enabled, "multi": False})
+        elif flavour == "mixed_kinds":
+            vals = _scalar_values(rng, n, rng.choice(["text+number", "text+number", "bool+number"]))
+            rng.shuffle(vals)
+            params.append({"key": key, "decl": vals, "expect": vals, "enabled": True, "multi": False})
         else:
             vals = _scalar_values(rng, n, rng.choice(["int", "int", "float", "mixed"]))
             params.append({"key": key, "decl": vals, "expect": vals, "enabled": enabled, "multi": False})
@@ -538,9 +549,21 @@ def spec_runs(case):
     return runs
 
 
+def lab_canon(v):
+    """canonical form of a LABEL value: as `cv`, and a bool is the number it equals (numpy / pandas coordinates hold
+    True as 1; selecting by True finds it — like 1 vs 1.0, the kind of a number is not part of a label)"""
+    if isinstance(v, bool):
+        return {"f": [int(v), 1]}
+    if isinstance(v, list):
+        return [lab_canon(x) for x in v]
+    if isinstance(v, dict) and set(v) != {"f"}:
+        return {k: lab_canon(x) for k, x in v.items()}
+    return v
+
+
 def spec_entry_values(case, run):
     """{key: canonical value} of the run's label (by parameter *key*, names are judged separately)"""
-    return {k: cv(v) for k, v in run["assignment"].items()}
+    return {k: lab_canon(cv(v)) for k, v in run["assignment"].items()}
 
 
 # ------------------------------------------------------------------ implementation side
@@ -580,7 +603,7 @@ def extract_entries(ds, n_slots, with_image=False, all_times=False):
         labels = {}
         for cname, c in coords.items():
             sub = c.isel({d: i for d, i in sel.items() if d in c.dims}).values
-            labels[cname] = cv(sub.tolist() if isinstance(sub, np.ndarray) else sub)
+            labels[cname] = lab_canon(cv(sub.tolist() if isinstance(sub, np.ndarray) else sub))
         e = {"labels": labels, "data": [num(x) for x in data[:n_take]]}
         if with_image and "image" in ds:
             im = np.asarray(ds["image"].isel(sel).values)
@@ -792,7 +815,7 @@ def model_entries(case, ans, parallel):
             for k, v in assignment.items():
                 labels[dim[k]] = _canon_json(v)
         data = expected_data(case, {k: _decanon(v) for k, v in assignment.items()})
-        entries.append({"labels": labels, "data": data})
+        entries.append({"labels": {k: lab_canon(v) for k, v in labels.items()}, "data": data})
         order.append(data)
     return {"entries": entries, "exec": order, "dims": ans["dims"]}
 
@@ -1006,6 +1029,16 @@ def body(ck: common.Check):
                                 "enabled": True, "multi": False, "missing_key": True})
         c["invalid"] = kind
         cases.append(("invalid", c))
+    # value lists of mixed kinds (text + number, bool + number) for an argument that accepts anything
+    for mode, wd in (("product", False), ("sequential", False), ("product", True), ("sequential", True)):
+        for _ in range(40):
+            c = gen_case(rng, mode=mode, with_dask=wd, flavour="mixed_kinds", max_runs=8, off_model=False)
+            if any(p["enabled"] and isinstance(p["decl"], list) and len({type(v).__name__ for v in p["expect"]} - {"float"}) >= 2
+                   for p in c["params"]):
+                break
+        cases.append(("directed", c))
+    for _ in range(0 if quick else 40):
+        cases.append(("random", gen_case(rng, mode=rng.choice(["product", "sequential"]), flavour="mixed_kinds", off_model=False)))
     # integer buckets wider than a double's mantissa (both paths, product and sequential mode)
     for mode, wd in [("product", True), ("sequential", True), ("product", False)] + \
             [(rng.choice(["product", "sequential"]), rng.random() < 0.7) for _ in range(0 if quick else 30)]:
@@ -1078,7 +1111,7 @@ def body(ck: common.Check):
             ck.case({"history": k, "case": c, "in_place": in_place}, nontrivial=k >= 1, stream="history")
             ck.count(f"history:{c['mode']}:{'dask' if wd else 'seq'}:call{k}")
     ck.rule = ("1-4 parameters (keys pairwise different) over stamp-probe arguments and detector fields; scalar int/float/"
-               "mixed/string lists, numpy expressions (integer / dyadic with independently computed expectations; tiny magnitudes, long "
+               "mixed/string lists, lists of mixed kinds (text + number, bool + number), numpy expressions (integer / dyadic with independently computed expectations; tiny magnitudes, long "
                "mantissas and fractional steps, and expressions expanding to 20-40 values — more than their text has characters — "
                "evaluated with numpy in the harness, compared bit for bit), 1-D and 2-D vector values, "
                "enabled/disabled mix; built through the Python API or from YAML (pyxel.configuration.loads); product / sequential / custom (npy and txt tables, extra unused columns); sequential "
